@@ -11,7 +11,7 @@ WT=$(mktemp -d /tmp/seedwt-XXXXXX); rmdir $WT
 git -C /repo worktree add -q $WT HEAD || exit 2
 trap 'git -C /repo worktree remove --force $WT; rm -rf $WT /tmp/seedwork-$P' EXIT
 echo "== demo on original:"; (bash $D/demo.sh $WT > /tmp/seedcheck-demo0.log 2>&1; echo "exit $?")
-git -C $WT apply $D/patch.diff || { echo "patch does not apply"; exit 2; }
+git -C $WT apply $D/patch.diff 2>/dev/null || git -C $WT apply -3 $D/patch.diff || { echo "patch does not apply"; exit 2; }
 echo "== build + tests with the change:"; (cd $WT && go build ./... && go test -vet=off -count=1 ./... 2>&1 | grep -v '^ok\|no test files' ; echo "tests exit ${PIPESTATUS[0]}")
 echo "== demo with the change:"; (bash $D/demo.sh $WT > /tmp/seedcheck-demo1.log 2>&1; echo "exit $?")
 for c in $CHECKS; do
